@@ -31,13 +31,24 @@ theorem validate_eq_model (ref est : List PyCmp.Str) : Mir.Gen.chord.validate re
   · have : ((ref.length : Int) != (est.length : Int)) = true := by simp; omega
     simp [h, this, bind, Except.bind]
 
+/-! the constant tables the rules read: the REGENERATED `QUALITIES` rows are the rows of the row model -/
+theorem qual_maj : Mir.PyS.dictIndex MirGen.Tables.qualities ['m', 'a', 'j'] = .ok QUAL_maj := by decide
+theorem qual_min : Mir.PyS.dictIndex MirGen.Tables.qualities ['m', 'i', 'n'] = .ok QUAL_min := by decide
+
+theorem seventh_table :
+    ([['m', 'a', 'j'], ['m', 'i', 'n'], ['m', 'a', 'j', '7'], ['7'], ['m', 'i', 'n', '7'], ([] : Mir.PyS.Str)].mapM
+      (fun (name : PyCmp.Str) => do
+        let t : List Int ← Mir.PyS.dictIndex MirGen.Tables.qualities name
+        pure t)) = .ok seventhBitmaps := by rfl
+theorem stack_seventh : PyCmp.stackRows seventhBitmaps = .ok seventhBitmaps := by rfl
+
 /-- the vector-level primitives, unfolded to `map` / `zipWith` on tabulations -/
 macro "cmp_vec" : tactic => `(tactic| simp [bind, Except.bind, pure, Except.pure, *, vecEq, bvecAnd, bvecOr, zipSame, zipWith_tab, map_tab,
   astypeFloat, maskSet, anyAxis1, allAxis1, matCmpS, vecCmpS, bvecEq0, col, sliceCols, matEq, matEqRow, sameShape, all_tab,
-  sumAxis1, countAxis1, onesBoolLike, npArray, listTake, all_zipWith_beq])
+  sumAxis1, countAxis1, onesBoolLike, npArray, listTake, all_zipWith_beq, QUAL_maj, QUAL_min, seventhBitmaps, QUAL_7, QUAL_maj7, QUAL_min7, QUAL_none, stackRows, countAxis0, maskSelect_tab, pairIndex_map, maskStoreB_tab, Cmp.test])
 
 /-- the row level: both sides are functions of row `i` of the two encodings -/
-macro "cmp_row" : tactic => `(tactic| (apply tab_congr; intro i _; simp [ChordCompare.cmp, ChordCompare.root, ChordCompare.thirds, ChordCompare.thirdsInv, ChordCompare.triads, ChordCompare.triadsInv, ChordCompare.tetrads, ChordCompare.tetradsInv, maskX, anyNeg, b2i, eqRoot, eqBass, eqThird, eqPrefix8, eqAll, Cmp.test, *]))
+macro "cmp_row" : tactic => `(tactic| (apply tab_congr; intro i _; simp [ChordCompare.cmp, ChordCompare.root, ChordCompare.thirds, ChordCompare.thirdsInv, ChordCompare.triads, ChordCompare.triadsInv, ChordCompare.tetrads, ChordCompare.tetradsInv, maskX, anyNeg, b2i, eqRoot, eqBass, ChordCompare.majmin, majminVocab, isMaj, isMin, isNone, QUAL_maj, QUAL_min, ChordCompare.sevenths, seventhsVocab, ChordCompare.majminInv, ChordCompare.seventhsInv, validInversion, seventhBitmaps, QUAL_7, QUAL_maj7, QUAL_min7, QUAL_none, eqThird, eqPrefix8, eqAll, Cmp.test, *] <;> first | grind | grind (splits := 40)))
 
 macro "cmp_frame" f:ident : tactic => `(tactic| (
   unfold $f cmpLabels
@@ -54,7 +65,7 @@ macro "cmp_proof" f:ident r:ident e:ident : tactic => `(tactic| (
   cases hv : validateLists $r $e with
   | error e => rfl
   | ok u =>
-    simp only [PyCmp.encode_many, Chord.pyEncodeMany]
+    simp only [PyCmp.encode_many, Chord.pyEncodeMany, qual_maj, qual_min, seventh_table, stack_seventh, bind, Except.bind]
     cases hr : Chord.encodeAll false $r with
     | error e => rfl
     | ok rs =>
@@ -64,6 +75,7 @@ macro "cmp_proof" f:ident r:ident e:ident : tactic => `(tactic| (
         obtain ⟨n, R, E, hn, hR, hE, h1, h2, h3, h4, h5, h6, hz⟩ := rows_tab (validateLists_ok_length hv) hr he
         have hbR := fun i => Reachable.bm_length (hR i)
         have hbE := fun i => Reachable.bm_length (hE i)
+        have hsR := fun i => Reachable.bass_lt (hR i)
         cmp_vec
         cmp_row))
 
@@ -92,5 +104,19 @@ theorem tetrads_eq_model (ref est : List PyCmp.Str) : Mir.Gen.chord.tetrads ref 
 theorem tetrads_inv_eq_model (ref est : List PyCmp.Str) :
     Mir.Gen.chord.tetrads_inv ref est = cmpLabels .tetradsInv ref est := by
   cmp_proof Mir.Gen.chord.tetrads_inv ref est
+
+theorem majmin_eq_model (ref est : List PyCmp.Str) : Mir.Gen.chord.majmin ref est = cmpLabels .majmin ref est := by
+  cmp_proof Mir.Gen.chord.majmin ref est
+
+theorem sevenths_eq_model (ref est : List PyCmp.Str) : Mir.Gen.chord.sevenths ref est = cmpLabels .sevenths ref est := by
+  cmp_proof Mir.Gen.chord.sevenths ref est
+
+theorem majmin_inv_eq_model (ref est : List PyCmp.Str) :
+    Mir.Gen.chord.majmin_inv ref est = cmpLabels .majminInv ref est := by
+  cmp_proof Mir.Gen.chord.majmin_inv ref est
+
+theorem sevenths_inv_eq_model (ref est : List PyCmp.Str) :
+    Mir.Gen.chord.sevenths_inv ref est = cmpLabels .seventhsInv ref est := by
+  cmp_proof Mir.Gen.chord.sevenths_inv ref est
 
 end Mir.C11.GenCmp
